@@ -1878,7 +1878,7 @@ func TestC15(t *testing.T) {
 	seed := hx.Seed()
 	rng := rand.New(rand.NewSource(seed))
 	out := hx.NewOut()
-	defer out.Close("correspondence: every op of directed scenarios (expedited->regular with a per-type period, EGF deposit rule boundaries incl. non-deposit denoms) and of random sequences (submit / deposit / vote / cancel / custom-parameter churn / parameter changes / blocks with the real EndBlocker) compared line by line with the Lean model; monitors on real state: module balance = Σ open deposits, settled exactly once, activation ⇒ minimum deposit, period and quorum by message type, single type, all-or-nothing execution, end-blocker never halts. non-trivial = distinct (op kind, result) and decisive tallies")
+	defer out.Close("correspondence: every op of directed scenarios (expedited->regular with a per-type period, EGF deposit rule boundaries incl. non-deposit denoms and sums over several spends, legacy-content proposals with custom parameters for the wrapper and for the wrapped content, the tally decision sequence at its boundaries with delegators overriding validators, weighted votes and a slashed validator) and of random sequences (submit / deposit / vote and weighted vote by validators and delegators / delegate / cancel / custom-parameter churn / parameter changes incl. thresholds / blocks with the real EndBlocker, slashed validators) compared line by line with the Lean model, which computes the tallies itself from the stored votes and the block's staking numbers; monitors on real state: module balance = Σ open deposits, settled exactly once, activation ⇒ minimum deposit (and the converse), period and quorum by message type, queue consistency, every period ends at its end time, per-option counts = what the votes and stakes give (each staked token once), counted votes removed, votes only for proposals in their voting period, single type, all-or-nothing execution stated directly (passed ⇔ every message succeeds in order; failure at first / middle / last message), end-blocker never halts. non-trivial = distinct (op kind, result) and decisive tallies")
 
 	facts := map[string]json.RawMessage{}
 	if fp := os.Getenv("VERIF_FACTS"); fp != "" {
@@ -1926,7 +1926,7 @@ func TestC15(t *testing.T) {
 		h.start(facts)
 		h.scenarioTally(sl)
 	}
-	nSeq := hx.N(120, 1500)
+	nSeq := hx.N(240, 1500)
 	for i := 0; i < nSeq; i++ {
 		h := newH(t, out, rng, 2+rng.Intn(4), 4)
 		h.start(facts)
